@@ -94,7 +94,7 @@ func (ev *evaluator) selectionSet(ss ast.SelectionSet) *big.Int {
 }
 
 // firstIntArg mirrors what the harness's custom functions look at: the first Int-typed argument in
-// declaration order, after coercion (literal, variable, default).
+// declaration order that is not null after coercion (literal, variable, default).
 func (ev *evaluator) firstIntArg(s *ast.Field) int64 {
 	for _, ad := range s.Definition.Arguments {
 		if ad.Type.Name() != "Int" || ad.Type.Elem != nil {
@@ -117,7 +117,8 @@ func (ev *evaluator) firstIntArg(s *ast.Field) int64 {
 		case int:
 			return int64(x)
 		case nil:
-			return 0
+			// the universal function skips an argument it receives as nil and looks at the next Int
+			continue
 		}
 		return 0
 	}
